@@ -14,7 +14,7 @@
   owning a cluster chain; mkdir / create / write-at-offset / truncating open / remove / rename
   addressed by directory path, the parent directory's chain grown or shrunk by every call, refusals
   for lack of space or root slots rolled back): `fat_tree_refines`, `fat_tree_refused_unchanged`,
-  `fat_tree_spec_error`, `fat_tree_history`, `fat_tree_mkdir_all`.
+  `fat_tree_spec_error`, `fat_tree_history`, `fat_tree_mkdir_all`, `fat_tree_space_accounting`.
   NOT proved: what a directory's bytes are inside that state machine (the images written are
   parameters; the codec is proved separately, `dir_parse_ser`), open handles that live across calls,
   8.3 aliasing of names, rename across directories (the code refuses it); those clauses are carried
@@ -26,6 +26,8 @@ import DiskfsModel.Proofs.FatFileIO
 import DiskfsModel.Proofs.FatDir
 import DiskfsModel.Proofs.FatFlatFs
 import DiskfsModel.Proofs.FatTreeStep
+import DiskfsModel.Proofs.FatTreeFree
+import DiskfsModel.Proofs.FatTreeFit
 import DiskfsModel.Model.Fat.Fs
 import DiskfsModel.Generated.Fat
 namespace Diskfs.Fat.C01
@@ -319,6 +321,29 @@ theorem fat_tree_mkdir_all (eqn) (g : TGeom) (fuel : Nat) (img img2 : Bytes) (pa
       tabs g (tmkdirAll eqn g fuel img img2 s pre path).1 = (specMkdirAll eqn (tabs g s) pre path).1 ∧
       (specMkdirAll eqn (tabs g s) pre path).2 = .ok) :=
   tmkdirAll_refines he hg hfuel img img2 path pre s h
+
+/-- **fat_tree_space_accounting**: "space released by remove can be used again without limit", for
+    the tree: after EVERY history of path-addressed calls the number of free clusters is exactly the
+    data area minus the clusters the tree's files and directories own — nothing is ever leaked,
+    whatever was removed, truncated, replaced by a rename, shrunk or refused on the way. -/
+theorem fat_tree_space_accounting (eqn) (g : TGeom) (fuel : Nat) (ops : List TOp) (s : DirSt)
+    (he : EqnOk eqn) (hg : TGeomOk g) (hfuel : g.f.lim - 2 ≤ fuel) (h : TInv eqn g s) :
+    freeCount g.f.lim (trun eqn g fuel s ops).m + (ownedClusters (trun eqn g fuel s ops)).length
+      = g.f.lim - 2 :=
+  trun_free_count he hg hfuel ops s h
+
+/-- **fat_write_recorded**: in the tree model a Write whose parent-directory rewrite failed would
+    be rolled back, which the code does not do (chain grown, data written, size not recorded). In a
+    directory that fits its storage (`LevelFit`: kept by every call, Props/C08 `tree_dirs_fit`) that
+    case cannot arise: once the clusters are allocated and the data written, the call is accepted. -/
+theorem fat_write_recorded (eqn) (g : TGeom) (fuel base : Nat) (s : DirSt) (n fn : Spec.Name) (fc : List Nat)
+    (size off : Nat) (data img : Bytes) (l' : List Nat) (ws : List Wr)
+    (he : EqnOk eqn) (hwf : kidsWF eqn g s.kids) (hfit : LevelFit g base s.chain s.kids)
+    (hf : kfind eqn s.kids n = some (.file fn fc size)) (hd : data.length ≠ 0)
+    (hres : (falloc g.f fuel s.m (Nat.max size (off + data.length)) (fc.headD 0)).res = some l')
+    (hws : writeH true g.f.io l' size off data = some ws) :
+    (dWrite eqn g fuel n off data img base s).2 = .ok :=
+  dWrite_recorded he hwf hfit hf hd hres hws
 
 /-- non-vacuity: a FAT12 volume with a file and a two-cluster subdirectory in its fixed root
     satisfies the hypotheses (more worked calls beside `exTree` in Proofs/FatTreeStep.lean) -/
